@@ -282,7 +282,7 @@ def chain_case(draw, tier, mode):
         left = _ctx(draw, C, outS, 0, 2)
         items = left + [{'tok': ['pol']}, {'tok': ['hwp']}] + items
         names.append('polhwp')
-    elif draw(st.integers(0, 4)) == 0:
+    elif draw(st.integers(0, 3)) == 0:
         # a block run that ends in the container space can only stand at the output end
         k = draw(st.integers(1, 3))
         cont = draw(st.sampled_from(['list', 'tuple', 'dict']))
@@ -298,15 +298,47 @@ def chain_case(draw, tier, mode):
                     left.append([['A', _inert(draw, C, S)]])
                     right.append([['A', _inert(draw, C, S)]])
                     continue
-                i = _inert(draw, C, S)
-                pair = [[['Ainv', i]], [['A', i]]]
-                if draw(st.booleans()):
-                    pair.reverse()
+                if len(S['shape']) >= 1:
+                    kind_ = draw(st.sampled_from(['inv', 'index', 'index', 'reshape'] if S['t'] == 'leaf' else ['inv', 'index', 'index']))
+                else:
+                    kind_ = 'inv'
+                if kind_ == 'inv':
+                    i = _inert(draw, C, S)
+                    pair = [[['Ainv', i]], [['A', i]]]
+                    if draw(st.booleans()):
+                        pair.reverse()
+                elif kind_ == 'index':
+                    # blocks that become identities only through their own reduction: P @ P.T, duplicate-free P
+                    shape_ = list(S['shape'])
+                    m_ = shape_[0]
+                    n_ = draw(st.integers(m_ + 1, m_ + 2))
+                    vals_ = list(draw(st.permutations(list(range(n_)))))[:m_]
+                    inS_ = St.map_leaves(S, lambda sh, dt: ((n_,) + tuple(sh[1:]), dt))
+                    i = C.define({'k': 'index', 'in': inS_, 'idx': [{'a': vals_}], 'explicit_out': True, 'unique': True, 'bare': False})
+                    pair = [[['P', i]], [['PT', i]]]
+                else:
+                    shape_ = list(S['shape'])
+                    cands_ = [f for f in gen._factorizations(math.prod(shape_)) if list(f) != shape_]
+                    if cands_:
+                        f_ = list(draw(st.sampled_from(cands_)))
+                        inS_ = St.map_leaves(S, lambda sh, dt: (tuple(f_), dt))
+                        i = C.define({'k': 'reshape', 'in': inS_, 'shape_arg': shape_, 'shape': shape_})
+                        pair = [[['X', i]], [['XT', i]]]
+                    else:
+                        i = _inert(draw, C, S)
+                        pair = [[['Ainv', i]], [['A', i]]]
                 left.append(pair[0])
                 right.append(pair[1])
             run = [{'tok': ['bdiag', left, cont]}, {'tok': ['bdiag', right, cont]}]
-            if draw(st.booleans()):
+            if draw(st.integers(0, 3)) == 0:
                 run = [{'tok': ['bdiag', [[['A', _inert(draw, C, S)]] for _ in range(k)], cont]}] + run
+            if draw(st.integers(0, 3)) != 0:
+                # a rule-free operator acting on the whole container separates the pair from the block column
+                if cont == 'dict':
+                    Sc = {'t': 'dict', 'items': [[key, S] for key in ['a', 'b', 'c'][:k]]}
+                else:
+                    Sc = {'t': cont, 'items': [S] * k}
+                run.append({'tok': ['A', _inert(draw, C, Sc)]})
             names.append('blocks_inverse_pair')
         run.append({'tok': ['bcol', [[['A', _inert(draw, C, S)]] for _ in range(k)], cont]})
         items = run + items
